@@ -4,10 +4,10 @@ import json
 
 CLAIMED = {
  "C01": dict(engine="E1+E3", technique="exhaustive exploration of the SAT-oracle choice tree (stateless, deviation-bounded) over all small frameworks",
-   text="Every execution of the real single-extension procedures on every framework with <=3 arguments (x5 presentations, every selectable encoder) under EVERY sequence of models a SAT backend may return (complete choice tree of the ChoiceSat oracle), plus the structured family S, sparse 5-argument classes and all isomorphism classes of 4-argument frameworks under a deviation bound (thorough: all 4-argument frameworks with D<=1 and the complete tree on every class); each leaf judged against a brute-force reference. Bounded exhaustive: nothing sampled.",
+   text="Every execution of the real single-extension procedures on every framework with <=3 arguments (x5 presentations, every selectable encoder) under EVERY sequence of models a SAT backend may return (complete choice tree of the ChoiceSat oracle), plus the structured family S, sparse 5-argument classes and all isomorphism classes of 4-argument frameworks under a deviation bound, every isomorphism class of the 6-argument digraphs with <=7 (thorough 8) attacks and three dense extremes (complete digraphs on 11/16 arguments) with the embedded solver (thorough: all 4-argument frameworks with D<=1 and the complete tree on every class); each leaf judged against a brute-force reference. Bounded exhaustive: nothing sampled.",
    note="trusted: reference semantics by subset enumeration (self-checked), harness DPLL (self-checked against truth tables), Assignment fabrication through CadicalSolver unit clauses; bound: n<=3 complete, n=4 D<=1, S D<=1/2", ref="4 C01, 2.1, 2.3"),
  "C02": dict(engine="E1+E3", technique="exhaustive exploration of the SAT-oracle choice tree over all small frameworks x arguments",
-   text="Credulous statuses of every solver the CLI dispatches to, for every argument of every framework with <=3 arguments (x5 presentations x encoders x certificate flag) on every leaf of the complete oracle choice tree, plus S and (thorough) U(4) deviation-bounded, judged against exists-over-reference-extensions.",
+   text="Credulous statuses of every solver the CLI dispatches to, for every argument of every framework with <=3 arguments (x5 presentations x encoders x certificate flag) on every leaf of the complete oracle choice tree, plus S, sparse 5-argument classes, all classes of U(4) (thorough: U(4)) deviation-bounded, every class of 6-argument digraphs with <=7 (8) attacks and three dense extremes with the embedded solver, judged against exists-over-reference-extensions.",
    note="same trusted base as C01", ref="4 C02/C03, 2.1"),
  "C03": dict(engine="E1+E3", technique="exhaustive exploration of the SAT-oracle choice tree over all small frameworks x arguments",
    text="Skeptical statuses, same space as C02, judged against forall-over-reference-extensions (ST without extension: every argument accepted; DS-CO = grounded membership).",
@@ -46,7 +46,7 @@ CLAIMED = {
    text="Every history of exactly 5 (thorough 6) operations ending in a solve call over a 25-operation alphabet on CadicalSolver, and of 3 (thorough 4) on ExternalSatSolver driving the stand-in program: at every solve step verdict and model are checked against a truth table over 7 variables (clauses so far, assumptions of this call only, model queryable for every declared variable, never Unknown); both backends against the same table; plus a finite family of scripted long sessions (up to 400 variables, hundreds of clauses, 30 solve calls on one object) on CaDiCaL and two configurations of the stand-in program, verdicts from the harness DPLL, every model verified.",
    note="variables <= 7, <= 3 solve calls per history in the exhaustive part; external backend = harness stand-in with its own DPLL", ref="4 C15"),
  "C16": dict(engine="E3 + E4 (spin) + conformance", technique="spin exploration of a Promela model of the pipe exchange bound to the code by a conformance grid; exhaustive reply/instance enumeration",
-   text="(1) every DIMACS instance written by static and dynamic solvers on the small universe is parsed strictly by the stand-in program; (2) every reply of <=3 (thorough 4) lines over a 17-line alphabet is interpreted and compared with a strict output-format parser; (3) models/extsat.pml: all interleavings of parent, writer thread and child over two bounded pipes for every scenario (6 child behaviours x instance x reply sizes), explored by spin for both parent orders; the 72-scenario grid is replayed on the real ExternalSatSolver under a watchdog (reply sizes around the real pipe capacity) and compared with the model of the required order; parent syscall order validated with strace.",
+   text="(1) every DIMACS instance written by static and dynamic solvers on the small universe, and during C15's scripted long sessions (up to megabytes of clause text), is parsed strictly by the stand-in program; (2) every reply of <=3 (thorough 4) lines over a 17-line alphabet is interpreted and compared with a strict output-format parser; (3) models/extsat.pml: all interleavings of parent, writer thread and child over two bounded pipes for every scenario (6 child behaviours x instance x reply sizes), explored by spin for both parent orders; the 72-scenario grid is replayed on the real ExternalSatSolver under a watchdog (reply sizes around the real pipe capacity) and compared with the model of the required order; parent syscall order validated with strace.",
    note="the OS scheduler is not controlled on the real code; interleaving coverage is on the model, binding is by outcome table + syscall order", ref="2.4, 4 C16"),
  "C19": dict(engine="E3", technique="exhaustive small-scope enumeration against all complete extensions",
    text="EquivalencyComputer on every labelled digraph with <=4 arguments and all 7.1 M labelled 5-argument digraphs with <=10 attacks (thorough: all 33.5 M), in compact, duplicate-attack and reversed-insertion-order presentation: every pair of merged arguments compared on ALL complete extensions; partition, totality, inverse mappings, reduced labels.",
